@@ -224,7 +224,16 @@ def spell_dir(rng, desc):
 
 
 def gen_unit(rng):
-    kind = rng.choice(["option", "option", "option", "sort", "sort_unique", "sort_by", "sort_by_values", "sort_by_values_by", "sort_by_keys"])
+    kind = rng.choice(["option", "option", "option", "sort", "sort_unique", "sort_by", "sort_by_values", "sort_by_values_by", "sort_by_keys", "by_outer"])
+    if kind == "by_outer":
+        # the key of a value is looked up in the ENCLOSING record (another ranking in every record): whatever the sort keeps
+        # from one record to the next must not leak
+        names = ["a", "b", "c", "d", "e"][:rng.choice((2, 3, 5))]
+        recs = []
+        for _ in range(rng.choice((2, 3, 6))):
+            ranks = {nm: rng.choice((0, 1, 2, 3)) for nm in names}
+            recs.append({"rank": ranks, "o": {"m%d" % i: nm for i, nm in enumerate(rng.sample(names, len(names)))}, "l": rng.sample(names, len(names))})
+        return {"kind": kind, "recs": recs, "seed": rng.getrandbits(32)}
     n = len(UNIVERSE)
     pool = rng.sample(range(n), rng.choice((2, 3, 5, 8, 20)))
     if rng.random() < 0.3:
@@ -279,6 +288,28 @@ def run_unit(ctx, unit):
     def fail(sig, msg, detail):
         st.violation(sig, msg, unit, detail)
 
+    if kind == "by_outer":
+        recs = unit["recs"]
+        data = "\n".join(jm.dumps(r) for r in recs)
+        args = ["--select=(keys (sort_by_values_by .o (get ^.rank .)))=x", "--select=(sort_by .l (get ^.rank .))=y",
+                "--select=(map (sort_by (entries .o) (get ^.rank .value)) .key)=z"]
+        o = ctx.drv.run(core.Case(args, data.encode()))
+        if o.result != "ok":
+            fail("sort-fn-run:" + o.result, "run failed: %s %s" % (o.errtext, o.panicinfo), {"args": args})
+            return
+        st.count("conclusive")
+        rows = [jm.plain(x) for x in jm.read_rows(o.stdout)]
+        for r, got in zip(recs, rows):
+            rk = r["rank"]
+            wx = [k for k, v in sorted(r["o"].items(), key=lambda kv: rk[kv[1]])]
+            wy = sorted(r["l"], key=lambda v: rk[v])
+            if got.get("x") != wx or got.get("y") != wy or got.get("z") != wx:
+                fail("sort-function:by-outer-key", "sort_by_values_by / sort_by with a key looked up in the enclosing record is not ordered by this record's ranks",
+                     {"record": r, "want_x": wx, "want_y": wy, "got": got})
+                return
+        st.count("function_sorts", len(recs))
+        st.see("nontrivial", ("by_outer", len(recs), len(recs[0]["l"])))
+        return
     if kind == "option":
         rows = unit["rows"]
         lines = []
